@@ -1,0 +1,39 @@
+//go:build verif
+
+// Contracts for the govc verifier (/verif/govc). Comment-only; see core/zz_contracts_verif.go.
+
+package sys
+
+// ---- C11: shared cross-location state and its guards --------------------------------------
+//@ guard CachedLocations.locs by CachedLocations.Mutex
+//@ guard CachedLocation.Expires by CachedLocation.Mutex
+//@ guard CachedLocation.Pending by CachedLocation.Mutex
+//@ guard CachedLocation.Location by CachedLocation.Mutex
+//@ guard System.storage by System.Mutex
+
+//@ func (*CachedLocations).expire
+//@   requires[C11.expire_needs_cache_lock] heldW(cls.Mutex)
+//@ func (*System).ensureStorage
+//@   requires[C11.ensurestorage_needs_sys_lock] heldW(sys.Mutex)
+
+// ---- C17: the location cache ---------------------------------------------------------------
+//@ ghost checked string
+//@ ghost lastCachePending bool
+//@ func (*System).SetControl
+//@   ghost-ensures lastCachePending == control.CachePending
+//@   also-modifies lastCachePending
+//@ func NewSystem
+//@   ensures[C17.newsystem_forces_cachepending] result1 == nil ==> lastCachePending
+//@ func (*System).OpenLocation
+//@   ghost-ensures checkExists && result1 == nil ==> checked == name
+//@   also-modifies checked
+//@ func (*CachedLocations).expire
+//@   ensures[C17.expire_miss]   !old(has(cls.locs, name)) ==> result0 == nil && !has(cls.locs, name)
+//@   ensures[C17.expire_hit_or_evict] old(has(cls.locs, name)) ==> (has(cls.locs, name) && result0 == cls.locs[name].Location) || (!has(cls.locs, name) && result0 == nil)
+//@   ensures[C17.expire_pending_kept] old(has(cls.locs, name)) && !released ==> has(cls.locs, name)
+//@ func (*CachedLocation).Get
+//@   ensures[C17.get_loads_once]      old(cl.Location) != nil ==> result0 == old(cl.Location) && result1 == nil
+//@   ensures[C17.get_failed_open_not_cached] old(cl.Location) == nil && result1 != nil ==> cl.Location == nil
+//@   ensures[C17.get_caches_loaded]   old(cl.Location) == nil && result1 == nil ==> cl.Location == result0
+//@ func (*CachedLocations).Open
+//@   ensures[C17.open_existence_checked] check && result1 == nil ==> checked == name
